@@ -480,6 +480,26 @@ func init() {
 			out.Add("lints", Case{Coq: fmt.Sprintf("(%s, %s, %s, (%s, %s, %s))", cqTyped(ipsCoq, "addr"), cqTyped(cnCoq, "addr"), cqTyped(netsCoq, "net"), cqZ(int64(s1)), cqZ(int64(s2)), cqZ(int64(s3))),
 				Tag: fmt.Sprintf("%d%d%d", s1, s2, s3), Desc: map[string]interface{}{"ips": fmt.Sprint(c.IPAddresses), "cn": c.Subject.CommonName, "nets": fmt.Sprint(nets), "statuses": []int{s1, s2, s3}, "der": hexs(der)}})
 		}
+		// the two reverse-DNS lints (Kernels/Arpa.v) on directed names of both zones and on the zoo
+		{
+			seenA := map[string]bool{}
+			addA := func(c *x509.Certificate, what string, der []byte) {
+				if term, tag, ok := arpaCase(c); ok && !seenA[term] {
+					seenA[term] = true
+					out.Add("arpa", Case{Coq: term, Tag: tag, Desc: map[string]interface{}{"object": what, "cn": c.Subject.CommonName, "dns": c.DNSNames, "der": hexs(der)}})
+				}
+			}
+			for i, der := range arpaCerts(rng) {
+				if c, err := safeParseCert(der); err == nil {
+					addA(c, fmt.Sprintf("reverse-DNS probe %d", i), der)
+				}
+			}
+			for _, zc := range certZoo() {
+				if zc.Class == "name" || zc.Class == "related-names" {
+					addA(zc.Cert, zc.File, zc.DER)
+				}
+			}
+		}
 		// name constraints whose address carries bits outside the mask (an iPAddress constraint is address||mask; nothing
 		// makes the encoder clear the host bits): the range is the same set of addresses as its canonical spelling, so the
 		// lint reports the same
